@@ -757,6 +757,17 @@ func main() {
 		}
 	}
 
+	// text outside expressions keeps its meaning: an @name that the legacy system left alone (not a legacy top level)
+	// must not become an expression of the new system
+	for _, c := range [][2]string{{"mail @fields.n1 now", "mail @fields.n1 now"}, {"a @@fields.n1 b", "a @fields.n1 b"}, {"x@nyaruka.com @foo", "x@nyaruka.com @foo"}} {
+		res.OracleChecks++
+		out, hasErr, _ := migrateReal(c[0], options{})
+		got, evErr := evalMigrated(out, []varDecl{{Name: "contact.n1", V: rvInt(3)}})
+		if hasErr || evErr || got != c[1] {
+			res.Fail("body:new-toplevel-identifier-becomes-live", map[string]any{"template": c[0]}, fmt.Sprintf("legacy %q denotes %q; migrated %q evaluates to %q", c[0], c[1], out, got))
+		}
+	}
+
 	if o.Replay == "" {
 		// gen
 		n := o.Count(800, 30000)
